@@ -21,7 +21,12 @@ RULE = ('apply-level cases: per modelled relocation class, (S, P, addend, templa
         'random offset in .code, target symbol in a second section / absolute), laid out by a generated Layout so that '
         'the distance hits the same boundary pools, linked by ppci.api.link; non-trivial = distinct (class, S-P, addend, '
         'template) whose link or apply succeeds with a non-zero distance')
-EXPLANATION = ('Unbounded Coq theorems (all S, P, template bytes) over the hand model Model/Reloc.v. Classes WITH theorems: '
+EXPLANATION = ('[generic stage, no model, ALL relocation classes of ALL architectures incl. avr/m68k/microblaze/mips/msp430/or1k/'
+               'xtensa/mcs6500: tools/props/c11_bounds.py calibrates scale, zero displacement and field size of each class from '
+               'its real apply and probes {+-2^(w-1), 2^w} +- 1: an accepted displacement whose patched bytes equal those of '
+               'another accepted displacement is "accepted but aliased"; the lax boundaries of the unchanged tree are known '
+               'findings keyed per (class, boundary); lo/hi slice classes are excluded by an explicit list] '
+               'Unbounded Coq theorems (all S, P, template bytes) over the hand model Model/Reloc.v. Classes WITH theorems: '
                'riscv b_imm12, b_imm20, abs32_imm20+abs32_imm12 (lui/addi pair), rel_imm20+rel_imm12 (auipc/addi pair); '
                'riscv:rvc cb_imm11, cbl_imm11 (same J-type scatter), bc_imm11, bc_imm8; arm imm24; x86_64 rel32, abs32; '
                'data absaddr16/32/64; plus BitView.__setitem__ writes exactly bits [a,b) of the little-endian word, '
